@@ -55,7 +55,7 @@ class Path:
 
 class Interp:
     def __init__(self, F, fid, args, rel=None, heap=None, variants=None, observe=(), inline=(), max_steps=800,
-                 unknown_switch="fork", call_models=None):
+                 unknown_switch="fork", call_models=None, fresh=False, enum_results=False):
         """args: {local: abstract value}; rel: {(symA, symB): 'L'|'E'|'G'} ordering facts between symbols
         (field paths on both sides must match); heap: {(symname, field): value}; variants: {symname: (variant_index)}
         for enum symbols; observe: callee suffixes whose invocations are logged; inline: fn ids to interpret
@@ -72,6 +72,8 @@ class Interp:
         self.max_steps = max_steps
         self.unknown_switch = unknown_switch
         self.call_models = call_models or {}
+        self.fresh = fresh
+        self.enum_results = enum_results
 
     # ---- driver: enumerate choice sequences -----------------------------------------------------
     def explore(self, max_paths=256):
@@ -419,7 +421,7 @@ class Interp:
             if callee.endswith(suf) or res.endswith(suf):
                 return model(self, args, heap, rel)
         if not callee:
-            return UNK
+            return self._unknown_result(fn, t)
         if last in ("total_order", "cmp", "total_cmp") and len(args) >= 2:
             return ("ord", self._compare(args[-2], args[-1], rel, last))
         if last == "partial_cmp" and len(args) >= 2:
@@ -468,6 +470,8 @@ class Interp:
                 return x[1]
             if x and x[0] == "res" and x[1] == "Ok":
                 return x[2]
+            if x and x[0] == "sym":
+                return x
             return UNK
         if last == "branch" and args:  # Try::branch
             x = args[0]
@@ -491,6 +495,22 @@ class Interp:
             cenv = {i + 1: a for i, a in enumerate(args)}
             r, _ = self._exec(callee_fn, cenv, heap, rel, depth + 1)
             return r
+        return self._unknown_result(fn, t)
+
+    def _unknown_result(self, fn, t):
+        d = t["dest"]
+        ty = fn["locals"][d["l"]] if not d["p"] and d["l"] < len(fn["locals"]) else ""
+        where = f"{fn['id'].split('::')[-1]}@L{t['ln']}"
+        if self.enum_results and ty == "core::cmp::Ordering":
+            c = self._choose(3, f"ret:{where}")
+            self._assump.append(("callret", where, "LEG"[c]))
+            return ("ord", "LEG"[c])
+        if self.enum_results and ty == "bool":
+            c = self._choose(2, f"ret:{where}")
+            self._assump.append(("callret", where, bool(c)))
+            return ("bool", bool(c))
+        if self.fresh:
+            return sym(f"r{t['ln']}_{d['l']}")
         return UNK
 
     @staticmethod
